@@ -559,6 +559,16 @@ def judge_tset(c, exp, conv, t, xpos):
     return near_matrix(yg, exp['ygrid'], 'traceset2xy() on the default grid')
 
 
+def tset_finding(c, lays, what):
+    """Names of the known integer-type deviations that explain a trace-set mismatch exactly (None otherwise)."""
+    typ = lays.get('xpos', '').partition(':')[2]
+    if not typ or what.startswith('raised'):
+        return None
+    if typ in ('uint8', 'int8', 'int16', 'uint16') and not (c['gmin'] and c['gmax']):
+        return 'D-C13-7'        # limits taken from narrow integer positions: xmin + xmax wraps around in xmid
+    return 'D-C13-5'
+
+
 def check_tset(ctx, c, exp, only=None, layouts=None):
     n = 0
     for conv in tset_conventions(c):
@@ -584,7 +594,7 @@ def check_tset(ctx, c, exp, only=None, layouts=None):
                 str(fq(c['xmin'])) if c['gmin'] else None, str(fq(c['xmax'])) if c['gmax'] else None, conv,
                 odd_layouts(lays) or 'plain', what),
                 'part': 'tset', 'conv': conv, 'layouts': dict(lays), 'call': jsonable(c), 'expected': jsonable(exp)},
-                finding='D-C13-5' if (':' in lays.get('xpos', '') and not what.startswith('raised')) else None)
+                finding=tset_finding(c, lays, what))
     return n
 
 
@@ -1248,9 +1258,10 @@ def tset_law_records(rng, nprng, n):
         except Exception as ex:
             recs.append(law(stage, 2 * 10**9, width=width, crash=True, exc=describe(ex), **info))
         if ':' in lays['xpos']:
+            narrow = lays['xpos'].partition(':')[2] in ('uint8', 'int16', 'uint16') and 'xmin' not in kw
             for r in recs[start:]:
                 if not r.get('crash'):
-                    r['finding'] = 'D-C13-5'
+                    r['finding'] = 'D-C13-7' if narrow else 'D-C13-5'
     return recs
 
 
